@@ -266,6 +266,78 @@ def reference_undecodable(case, body_raw):
     return feed([body_raw]) and feed([body_raw[i:i + 1] for i in range(len(body_raw))])
 
 
+SIMPLE = ("identity", "gzip", "deflate", "zstd")
+
+
+def _stage(c, pieces):
+    """one coding, every member / frame of the stream, fed piece by piece: 'ok' | 'bad' (a plain decoder rejects it) | 'short' (zstd: it ends
+    inside a frame); with the bytes decoded so far"""
+    import zstandard
+    data = b"".join(pieces)
+    out = b""
+    if c in ("gzip", "gzip2", "x-gzip"):
+        rest = data
+        while rest:
+            d = zlib.decompressobj(16 + zlib.MAX_WBITS)
+            try:
+                out += d.decompress(rest)
+            except zlib.error:
+                return out, "bad"
+            if not d.eof:
+                return out, "ok"          # a truncated gzip member is not something the property asks to be detected
+            rest = d.unused_data
+        return out, "ok"
+    if c in ("deflate", "rawdeflate"):
+        for wbits in (zlib.MAX_WBITS, -zlib.MAX_WBITS):
+            try:
+                d = zlib.decompressobj(wbits)
+                return d.decompress(data) + d.flush(), "ok"
+            except zlib.error:
+                continue
+        # urllib3's DeflateDecoder falls back from zlib to raw deflate on the first error and then takes what that yields: what a
+        # damaged zlib stream decodes to is not pinned down by any plain decoder (either-region)
+        return out, "unknown"
+    if c in ("zstd", "zstd2"):
+        for mode in ("whole", "bytes"):
+            rest = data
+            out = b""
+            status = "ok"
+            try:
+                while rest:
+                    o = zstandard.ZstdDecompressor().decompressobj()
+                    if mode == "whole":
+                        out += o.decompress(rest)
+                    else:
+                        for i in range(len(rest)):
+                            out += o.decompress(rest[i:i + 1])
+                            if o.eof:
+                                break
+                    if not o.eof:
+                        status = "short"
+                        break
+                    rest = o.unused_data if mode == "whole" else rest[i + 1:] + b""
+            except Exception:
+                status = "bad"
+            if status == "ok":
+                return out, "ok"          # (the library accepts some damaged frame headers in one feeding mode only: either-region)
+        return out, status
+    return data, "ok"
+
+
+def stacked_status(coding, stream):
+    """'ok' | 'bad' | 'short' for a stream under a list of codings (the last listed was applied last and is removed first)"""
+    data = stream
+    if any(x.strip() in ("deflate", "rawdeflate") for x in coding.split(",")):
+        return "ok"          # DeflateDecoder's fall-back to raw deflate decides what the next stage is fed: either-region
+    for c in reversed([x.strip() for x in coding.split(",")]):
+        data, st = _stage(c, [data])
+        if st == "unknown":
+            return "ok"
+        if st != "ok":
+            return st
+    return "ok"
+
+
 def oracle(case, obs):
     problems = _STASH.pop(id(case), [])
     if problems:
@@ -286,6 +358,11 @@ def oracle(case, obs):
         # (with not one byte of the stream the response is a complete one without a body)
         if end == 0 and case["decode"] and case["coding"] == "zstd" and 0 < f[1] < len(full):
             return "the zstd stream is incomplete (%d of %d bytes inside complete framing) but reading ended normally with %d bytes" % (f[1], len(full), len(got))
+        if end == 0 and case["decode"] and case["coding"] not in SIMPLE and 0 < f[1] < len(full):
+            st = stacked_status(case["coding"], full[:f[1]])
+            if st != "ok":
+                return "the %s stream (%s) is %s (%d of %d bytes inside complete framing) but reading ended normally with %d bytes" % (
+                    "zstd" if st == "short" else "compressed", case["coding"], "incomplete" if st == "short" else "undecodable", f[1], len(full), len(got))
         if end == 0 and not case["decode"] and got != raw:
             return "an intact (undecoded) body was not read back"
         if end not in (0, 4):
@@ -301,6 +378,8 @@ def oracle(case, obs):
             must_raise = "the body was cut after %d of %d framed bytes" % (f[1], len(c12.wire_of(case)[2]))
         elif complete is None and case["decode"] and case["coding"] == "zstd" and 0 < f[1] < len(raw):
             must_raise = "the zstd stream is incomplete"
+        elif complete is None and case["decode"] and case["coding"] not in SIMPLE and 0 < f[1] < len(raw) and stacked_status(case["coding"], raw[:f[1]]) == "short":
+            must_raise = "the zstd stream (%s) is incomplete" % case["coding"]
     else:
         pos = f[1]
         in_size_line = any(a <= pos < b for a, b in spans)
@@ -312,9 +391,13 @@ def oracle(case, obs):
             # RFC 9112 7.1: chunk-size = 1*HEXDIG, then optional extensions (BWS ";" ...), then CRLF
             if not re.fullmatch(rb"[0-9a-fA-F]+([ \t]*;[^\r\n]*)?\r\n", line):
                 must_raise = "a chunk-size line is malformed (%r)" % line
-        elif case["decode"] and case["coding"] != "identity" and case["framing"] != "chunked":
+        elif case["decode"] and case["coding"] in SIMPLE and case["coding"] != "identity" and case["framing"] != "chunked":
             if reference_undecodable(case, body):
                 must_raise = "the compressed stream is undecodable"
+        elif case["decode"] and case["coding"] not in SIMPLE and case["framing"] != "chunked":
+            st = stacked_status(case["coding"], body)
+            if st != "ok":
+                must_raise = "the compressed stream (%s) is %s" % (case["coding"], "undecodable" if st == "bad" else "incomplete (zstd)")
     if end == 0:
         if must_raise:
             return "%s but reading ended normally with %d bytes" % (must_raise, len(got))
@@ -339,6 +422,13 @@ def signature(case, obs, msg):
         return {"kind": "negative-chunk-size"}
     if "(after DecodeError)" in (msg or ""):
         return {"kind": "connection-kept-after-decode-error"}
+    codings = [x.strip() for x in case["coding"].split(",")]
+    if "but reading ended normally" in (msg or "") and "incomplete" in (msg or "") and len(codings) > 1 and codings[-1] in ("zstd", "zstd2"):
+        return {"kind": "outer-zstd-of-a-stack-not-flushed"}
+    if "is undecodable but reading ended normally" in (msg or "") and "gzip2" in codings and f[0] == "corrupt":
+        first = len(__import__("gzip").compress(case["payload"][:len(case["payload"]) // 2], 6, mtime=0))
+        if codings == ["gzip2"] and f[1] >= first:
+            return {"kind": "damage-after-the-first-gzip-member-taken-for-trailing-garbage"}
     m = re.search(r"a chunk-size line is malformed \((b['\"].*['\"])\) but reading ended normally", msg or "")
     if m:
         try:
@@ -381,7 +471,7 @@ def base_case(rng, framing=None):
     n = rng.choice([0, 1, 5, 17, 40, 120])
     payload = bytes(rng.choice(b"ab\n") for _ in range(n)) if rng.random() < 0.6 else bytes(rng.randrange(256) for _ in range(n))
     framing = framing or rng.choice(["len", "chunked", "chunked", "eof"])
-    return {"payload": payload, "coding": rng.choice(["identity", "identity", "gzip", "deflate", "zstd"]), "framing": framing,
+    return {"payload": payload, "coding": rng.choice(["identity", "identity", "gzip", "deflate", "zstd", "gzip", "deflate", "zstd", "gzip2", "zstd2", "gzip, zstd", "zstd, gzip", "gzip, deflate"]), "framing": framing,
             "chunks": [rng.choice([1, 2, 5, 16, 1000]) for _ in range(rng.randint(1, 3))], "ext": rng.choice([False, False, True, 2, 3, 4]),
             "segs": [rng.choice([1, 3, 10, 10000]) for _ in range(rng.randint(1, 2))], "decode": rng.random() < 0.6}
 
